@@ -157,6 +157,7 @@ where
                 //
                 // The constraint is not dropped until all variables converge into numbers.
                 Ok(state
+                    .with_constraint(self.clone())
                     .process_domain(
                         &wwalk,
                         Rc::new(FiniteDomain::from(
@@ -174,8 +175,7 @@ where
                         Rc::new(FiniteDomain::from(
                             umin.saturating_sub(wmax)..=umax.saturating_sub(wmin),
                         )),
-                    )?
-                    .with_constraint(self))
+                    )?)
             }
             // If all operators do not yet have domains, then keep the constraint until it can
             // be used to constrain some domains.
